@@ -11,6 +11,8 @@ driver commands of area `ninja`
   check <text>|<fs>|<reqs>             -> verdict of the verified checker on the manifest text
   checkg <rules>|<edges>|<fs>|<reqs>   -> the same on a graph given directly; edges `rule;outs;ins;vals` joined by `/`
   canon <path>                         -> canonicalised path
+  quote <name>                         -> ninja_quote(name, is_build_line=True) of the emission model
+  readpath <text>                      -> OK|<first path as read by the lexer>|<rest>
   emit <ops>                           -> the emission state machine (see MesonModel/Ninja/Emit.lean)
 
 lists are `,`-joined encoded strings; reqs = root,target,root,target,…
@@ -116,6 +118,13 @@ def handle (cmd : String) (fs : List String) : String :=
     let es := if edges.trimAscii.isEmpty then [] else (edges.splitOn "/").map decodeEdge
     verdict { rules := decodeStrList rules, edges := es } (strs f) (pairs (strs r))
   | "canon", [p] => encodeStr (canonPath (decodeStr p))
+  | "quote", [p] => encodeStr (Emit.ninjaQuoteBuild (decodeStr p))
+  | "readpath", [t] =>
+    -- first path of the text as the lexer reads it (literal pieces only), and what is left
+    let s := decodeStr t
+    match readPath (s.length + 1) s with
+    | .ok (e, r) => "OK|" ++ encodeStr (evalStr [] e) ++ "|" ++ encodeStr r
+    | .error e => "ERR:" ++ e.name
   | "emit", [ops] => emitCmd ops
   | _, _ => "bad-op"
 
